@@ -1,7 +1,11 @@
 #!/bin/bash
 # Run every kept seeded change against its owning check (quick tier) and report caught / MISSED.
+# usage: seedall.sh [lane nlanes]   - with two numbers only every nlanes-th seed (starting at lane) is run
 cd "$(dirname "$0")/.."
+lane=${1:-0}; nl=${2:-1}; k=0
 for d in seeded/*/; do
+  k=$((k+1))
+  [ $((k % nl)) -eq $lane ] || continue
   id=$(basename $d)
   chk=$(python3 -c "import json; print(json.load(open('$d/meta.json'))['property'])")
   out=$(timeout 3000 tools/seedcheck.sh $id $chk 2>/dev/null | grep -E "^ *[0-9]+ +C[0-9]+:" | head -1)
